@@ -279,6 +279,7 @@ func runC01(c *Check) {
 
 	ruleValidatorFacts(c, p)
 	ruleValidatorAgreesWithBuilder(c, p)
+	ruleFirstBlockMatchesInitialState(c, p)
 	ruleEmptyHashConst(c, p)
 	ruleNextState(c, p)
 }
@@ -1188,4 +1189,50 @@ func ruleChainLinks(c *Check, p *Prog, g *Graph, step *ssa.Function, hdrLit *ssa
 	if !found {
 		c.Unk(rule, fnShort(step)+" ⟂ Metadata.LastDataHash", fn, "", "anchor lost: the metadata attached to the committed data")
 	}
+}
+
+// ruleFirstBlockMatchesInitialState (C01-R11): on a chain without a persisted state the loader
+// asks the execution layer for the genesis root (InitChain), builds the chain's first block on it
+// and stores that block; the production step later takes the stored block over as the pending
+// block and validates it against the state built from the very same InitChain answer. The stored
+// block is therefore written on every path from InitChain's success to the loader's success
+// return: a block left over from an earlier start (before the first block was committed) carries
+// that start's root, fails "appHash mismatch" against the new state, and the sequencer can never
+// produce its first block.
+func ruleFirstBlockMatchesInitialState(c *Check, p *Prog) {
+	rule := "C01-R11"
+	c.Doc(rule, "EO: in the initial-state loader, every path from the success edge of Executor.InitChain to a success return passes Store.SaveBlockData (the first block is rebuilt from the root InitChain reported on this start, never left as an earlier start wrote it).")
+	var loader *ssa.Function
+	for _, fn := range p.Funcs {
+		pk := fnPkg(fn)
+		if pk == nil || pk.Pkg.Path() != rootPath+"/block" || fn.Parent() != nil || fn.Blocks == nil {
+			continue
+		}
+		if callsNamed(fn, func(n string) bool { return n == execM("InitChain") }) && callsNamed(fn, func(n string) bool { return n == storeM("GetState") }) {
+			loader = fn
+		}
+	}
+	if loader == nil {
+		c.Unk(rule, "initial-state loader", "", "", "anchor lost: no function of the block package that reads the state and initialises the chain")
+		return
+	}
+	g := BuildECFG(p, loader, ownPkgOpts(rootPath+"/block", 2))
+	c.NoteGraph(g)
+	initOK := g.Select(ErrNilEdge(func(t *Term) bool { return t.IsCall("core/execution.Executor).InitChain") }))
+	saves := g.Select(IsCall(storeM("SaveBlockData")))
+	if len(initOK) == 0 || len(saves) == 0 {
+		c.Unk(rule, fnShort(loader)+" ⟂ InitChain→SaveBlockData", fnName(loader), "", fmt.Sprintf("anchor lost: %d checked InitChain calls, %d SaveBlockData calls in the loader", len(initOK), len(saves)))
+		return
+	}
+	var okExits []*Node
+	for _, x := range g.Exits {
+		if g.ExitClass(x) != rcA && x.Ctx.Depth == 0 {
+			okExits = append(okExits, x)
+		}
+	}
+	c.Decide(rule, fnShort(loader)+" ⟂ InitChain→SaveBlockData", fnName(loader), p.InstrPos(saves[0].In),
+		"every success return after InitChain follows the write of the first block built on the reported root",
+		"the loader can return the state built from this start's InitChain answer without writing the first block: a block stored by an earlier start (before the first block was committed) stays, the production step takes it over as the pending block and rejects it against the new state (appHash mismatch) on every attempt and after every restart", g,
+		g.PathAvoiding(initOK, nodeSet(okExits), nodeSet(saves)))
+	c.MinInstances(rule, 1)
 }
